@@ -13,13 +13,26 @@ use palette::{Hsluv, Lab, Lch, Lchuv, Luv, Xyz, Yxy};
 /// Lam 1985 / Hunt 1995 as tabulated by Lindbloom) — not from palette.
 pub mod spec {
     use std::f64::consts::PI;
-    /// CIE standard illuminant tristimulus values, 2° observer, Y = 1 (ASTM E308-01)
+    /// CIE standard illuminant tristimulus values, 2° and 10° observer, Y = 1 (ASTM E308-01 as tabulated by Lindbloom; palette rounds the
+    /// 10° values to four digits)
     pub fn white(name: &str) -> [f64; 3] {
         match name {
             "D65" => [0.95047, 1.0, 1.08883],
             "D50" => [0.96422, 1.0, 0.82521],
             "E" => [1.0, 1.0, 1.0],
             "A" => [1.09850, 1.0, 0.35585],
+            "B" => [0.99072, 1.0, 0.85223],
+            "C" => [0.98074, 1.0, 1.18232],
+            "D55" => [0.95682, 1.0, 0.92149],
+            "D75" => [0.94972, 1.0, 1.22638],
+            "F2" => [0.99186, 1.0, 0.67393],
+            "F7" => [0.95041, 1.0, 1.08747],
+            "F11" => [1.00962, 1.0, 0.64350],
+            // 10° observer (ASTM E308-01, table 5)
+            "D50Degree10" => [0.96720, 1.0, 0.81427],
+            "D55Degree10" => [0.95799, 1.0, 0.90926],
+            "D65Degree10" => [0.94811, 1.0, 1.07304],
+            "D75Degree10" => [0.94416, 1.0, 1.20641],
             _ => panic!("white point {} not in the reference", name),
         }
     }
@@ -403,6 +416,18 @@ fam!(run_f32, f32);
 fam!(run_f64, f64);
 
 pub fn run_family(out: &mut Out, rng: &mut Rng, tier: &str) {
+    // the white point constants themselves are the published tristimulus values (every white point type of the crate)
+    {
+        use palette::white_point::*;
+        macro_rules! wp { ($($w:ident),*) => { $( {
+            let got: [f64; 3] = palette::cast::into_array(<$w as WhitePoint<f64>>::get_xyz());
+            let want = spec::white(stringify!($w));
+            let e = (0..3).map(|k| (got[k] - want[k]).abs()).fold(0.0, f64::max);
+            out.maxi("white-point-vs-published", e);
+            out.check(e <= 5e-5, &format!("white-point-published:{}", stringify!($w)), || format!("{}::get_xyz() = {:?}, published {:?}", stringify!($w), got, want));
+        } )* } }
+        wp!(A, B, C, D50, D55, D65, D75, E, F2, F7, F11, D50Degree10, D55Degree10, D65Degree10, D75Degree10);
+    }
     let n = if tier == "thorough" { 20_000 } else { 1_500 };
     run_f32(out, rng, n);
     run_f64(out, rng, n);
